@@ -174,14 +174,19 @@ def totalMem (size : V → Nat) (m : Store K V) : Nat := (m.map (fun p => size p
 /-- entry-limit step.  Sync (`global_cache.rs:529-585`, `thread_local_cache.rs:451-517`):
     after the store, `order.len() > limit`.  Async (`async_global_cache.rs:647-691`): before the
     store, `cache.len() >= limit`. -/
+def overLimit (cfg : Cfg) (n : Nat) (m : Store K V) (q : List K) : Bool :=
+  match cfg.flavour with
+  | .async => decide (m.length ≥ n)
+  | _ => decide (q.length > n)
+
 def limitStep (cfg : Cfg) (tl : Tlru S) (now r : Nat) (m : Store K V) (q : List K) : Store K V × List K :=
   match cfg.limit with
   | none => (m, q)
   | some n =>
-    let over := match cfg.flavour with
-      | .async => decide (m.length ≥ n)
-      | _ => decide (q.length > n)
-    if over then let (m', q', _) := evictLimit cfg tl now r m q; (m', q') else (m, q)
+    if overLimit cfg n m q then
+      let res := evictLimit cfg tl now r m q
+      (res.1, res.2.1)
+    else (m, q)
 
 /-- the memory loop, `extra` = size of the value about to be stored (async) or 0 (sync, where the
     value is already in the store).  `fuel` bounds the iterations; `memLoop_fuel` (Lemmas) shows
@@ -198,34 +203,39 @@ def memLoop (cfg : Cfg) (tl : Tlru S) (size : V → Nat) (now maxM extra : Nat) 
 
 /-! ### Operations -/
 
+/-- policies whose hits increment the frequency counter (`global_cache.rs:392-408`,
+    `thread_local_cache.rs:274-290`, `async_global_cache.rs:340-354`) -/
+def Policy.bumps : Policy → Bool
+  | .lfu | .arc | .tlru => true
+  | _ => false
+
+/-- policies whose hits move the key to the back of the queue -/
+def Policy.refreshes : Policy → Bool
+  | .lru | .arc | .tlru => true
+  | _ => false
+
+/-- effect of a hit on store and queue.  Sync (`global_cache.rs:385-413`, `thread_local_cache.rs:267-295`):
+    LRU moves, LFU bumps, ARC/TLRU move then bump.  Async (`async_global_cache.rs:336-385`): bump inside
+    the shard guard, then — only if a bound is configured — `retain` + `push_back` if still stored. -/
+def hitUpdate (cfg : Cfg) (k : K) (m : Store K V) (q : List K) : Store K V × List K :=
+  let m1 := if cfg.policy.bumps then bumpHits k m else m
+  match cfg.flavour with
+  | .async =>
+    let refresh := (cfg.limit.isSome || cfg.maxMem.isSome) && cfg.policy.refreshes && hasKey k m1
+    (m1, if refresh then retainPush k q else q)
+  | _ => (m1, if cfg.policy.refreshes then moveToEnd k q else q)
+
 def get (cfg : Cfg) (s : State K V) (k : K) : State K V × Option V :=
   match lookup k s.store with
   | none => ({ s with missStat := s.missStat + 1 }, none)
   | some e =>
     if expired cfg s.now e then
       -- `global_cache.rs:364-373`, `thread_local_cache.rs:250-255`, `async_global_cache.rs:388-395`
-      let (m', q') := removeBoth cfg k s.store s.queue
-      ({ s with store := m', queue := q', missStat := s.missStat + 1 }, none)
+      let r := removeBoth cfg k s.store s.queue
+      ({ s with store := r.1, queue := r.2, missStat := s.missStat + 1 }, none)
     else
-      let s1 := { s with hitStat := s.hitStat + 1 }
-      match cfg.flavour with
-      | .async =>
-        -- `async_global_cache.rs:336-385`
-        let m1 := match cfg.policy with
-          | .lfu | .arc | .tlru => bumpHits k s1.store
-          | _ => s1.store
-        let refresh := (cfg.limit.isSome || cfg.maxMem.isSome) &&
-          (cfg.policy = .lru || cfg.policy = .arc || cfg.policy = .tlru)
-        let q1 := if refresh && hasKey k m1 then retainPush k s1.queue else s1.queue
-        ({ s1 with store := m1, queue := q1 }, some e.val)
-      | _ =>
-        -- `global_cache.rs:385-413`, `thread_local_cache.rs:267-295`
-        match cfg.policy with
-        | .lru => ({ s1 with queue := moveToEnd k s1.queue }, some e.val)
-        | .lfu => ({ s1 with store := bumpHits k s1.store }, some e.val)
-        | .arc | .tlru =>
-          ({ s1 with queue := moveToEnd k s1.queue, store := bumpHits k s1.store }, some e.val)
-        | _ => (s1, some e.val)
+      let r := hitUpdate cfg k s.store s.queue
+      ({ s with store := r.1, queue := r.2, hitStat := s.hitStat + 1 }, some e.val)
 
 /-- `insert` (no memory estimator).  `r` = random draw for the entry-limit step. -/
 def insert (cfg : Cfg) (tl : Tlru S) (r : Nat) (s : State K V) (k : K) (v : V) : State K V :=
